@@ -123,15 +123,19 @@ def check_virtual(spec, ctx):
     if info["calls"] == 0:
         raise Skip("no effective refinement")
     L = _classes(ctx, spec, ref, info)
-    # level prolongators of the underlying tensor-product meshes
-    for lv in range(L - 1):
-        Ps = ctx.sut(hs.tp_prolongation, lv, what="tp_prolongation")
-        for ax in range(ref.dim):
-            ctx.close("tp_prolongation", Ps[ax], ref.P1(lv, ax), rtol=0, atol=1e-11)
-        if lv == 0:
-            Pk = ctx.sut(hs.tp_prolongation, lv, kron=True, what="tp_prolongation(kron)")
-            ctx.close("tp_prolongation_kron", Pk, ref.P(lv), rtol=0, atol=1e-11)
-    for trunc in (False, True):
+    # The queries below are observations of one object; none of them may change what a later one returns.  They are
+    # run in a generated order, and the first one is repeated at the end.
+    def q_tp():
+        # level prolongators of the underlying tensor-product meshes
+        for lv in range(L - 1):
+            Ps = ctx.sut(hs.tp_prolongation, lv, what="tp_prolongation")
+            for ax in range(ref.dim):
+                ctx.close("tp_prolongation", Ps[ax], ref.P1(lv, ax), rtol=0, atol=1e-11)
+            if lv == 0:
+                Pk = ctx.sut(hs.tp_prolongation, lv, kron=True, what="tp_prolongation(kron)")
+                ctx.close("tp_prolongation_kron", Pk, ref.P(lv), rtol=0, atol=1e-11)
+
+    def q_virtual(trunc):
         name = "virtual_thb" if trunc else "virtual_hb"
         Ps = ctx.sut(hs.virtual_hierarchy_prolongators, truncate=trunc, what="virtual_hierarchy_prolongators")
         ctx.require(name, len(Ps) == L - 1, "number of prolongators %d for %d levels" % (len(Ps), L))
@@ -159,11 +163,44 @@ def check_virtual(spec, ctx):
                 raise
             rk = np.linalg.matrix_rank(Ifull @ c)
             ctx.require(name, rk == V[k].shape[1], "columns from level %d have rank %d, expected %d" % (k, rk, V[k].shape[1]))
+
+    def q_rep(trunc):
+        R = ctx.sut(hs.represent_fine, truncate=trunc, what="represent_fine(truncate=%s)" % trunc)
+        R = R.toarray() if hasattr(R, "toarray") else np.asarray(R)
+        Lh = hs.numlevels
+        Iref = (ref.I_thb(L) if trunc else ref.I_hb(L))
+        if Lh > L:      # pyiga keeps an empty finest level after a finite-disparity refinement: compare on its finest mesh
+            Iref = ref.rep(L - 1, Lh - 1) @ Iref
+        ctx.close("represent_fine_thb" if trunc else "represent_fine_hb", R, Iref, rtol=0, atol=1e-11)
+
+    def q_default():
         # default argument follows hs.truncate
-    Pd = ctx.sut(hs.virtual_hierarchy_prolongators, what="virtual_hierarchy_prolongators()")
-    Pe = hs.virtual_hierarchy_prolongators(truncate=spec["truncate"])
-    for a, b in zip(Pd, Pe):
-        ctx.close("virtual_default", a, b.toarray(), rtol=0, atol=0)
+        Pd = ctx.sut(hs.virtual_hierarchy_prolongators, what="virtual_hierarchy_prolongators()")
+        Pe = hs.virtual_hierarchy_prolongators(truncate=spec["truncate"])
+        for a, b in zip(Pd, Pe):
+            ctx.close("virtual_default", a, b.toarray(), rtol=0, atol=0)
+    queries = [q_tp, lambda: q_virtual(False), lambda: q_virtual(True), lambda: q_rep(False), lambda: q_rep(True), q_default]
+    order = [int(i) % len(queries) for i in (spec.get("order") or range(len(queries)))]
+    deferred = None     # a violation of the THB virtual prolongators (open finding) must not hide the other queries
+    for i in order:
+        try:
+            queries[i]()
+        except Violation as v:
+            if v.oracle != "virtual_thb" or deferred is not None:
+                raise
+            deferred = v
+    for i in order[:2]:
+        if deferred is not None and i == 2:
+            continue
+        try:
+            queries[i]()
+        except Violation as v:
+            raise Violation("observation_changed_state", "query %d gives a different answer when repeated after the other "
+                            "transfer queries on the same object: %s" % (i, v), **v.detail)
+    if deferred is not None:
+        raise deferred
+    if order != sorted(order):
+        ctx.flag("permuted_query_order")
     ctx.nontrivial = L >= 3 or spec["disparity"] is not None
 
 
@@ -338,8 +375,15 @@ def strat_hsplinefunc(draw):
     return spec
 
 
+@st.composite
+def _virtual_strat(draw):
+    spec = draw(gh.history(dims=(1, 2), pmax=3, max_steps=4, disparities=(None, 1, 2), bdspecs_mode="none", containers=("set",)))
+    spec["order"] = draw(st.permutations(list(range(6))))
+    return spec
+
+
 def _virtual_strategy(tier):
-    return gh.history(dims=(1, 2), pmax=3, max_steps=4, disparities=(None, 1, 2), bdspecs_mode="none", containers=("set",))
+    return _virtual_strat()
 
 
 SUBCHECKS = [
@@ -347,7 +391,8 @@ SUBCHECKS = [
         rule="bspline.prolongation / knot_insertion / refine vs exact rational Boehm matrices"),
     Sub("virtual", check_virtual, strategy=_virtual_strategy, quick=160, thorough=5000, floor=20, timeout_q=400,
         rule="tp_prolongation factors; virtual_hierarchy_prolongators (HB and THB): composition from every virtual level "
-             "reproduces that level's basis functions (=> spans exactly that space)"),
+             "reproduces that level's basis functions (=> spans exactly that space); represent_fine (HB/THB); the queries run "
+             "in a generated order on one object and the first two are repeated at the end (observations do not change state)"),
     Sub("prolongate_to", check_prolongate_to, strategy=lambda tier: strat_prolongate(), quick=160, thorough=5000, floor=20,
         timeout_q=400, rule="coarse = history prefix, fine = full history: I_fine P = Up I_coarse on HB coefficients"),
     Sub("boundary", check_boundary, strategy=lambda tier: strat_boundary(), quick=128, thorough=4000, floor=20, timeout_q=400,
